@@ -127,7 +127,6 @@ func prepareSchedule(sc schedScenario) (*execution, []func()) {
 						s.seq = f.SequenceNum()
 						d, _ := f.FrameDataWithMargins(0, 0)
 						s.wire = append([]byte(nil), d...)
-						s.key = kit.Hash((&state.EncryptionSessionTestHelper{EncryptionSession: sa.Encryption()}).OutKey())
 					}
 					f.ReturnToPool()
 				case "L":
@@ -137,7 +136,6 @@ func prepareSchedule(sc schedScenario) (*execution, []func()) {
 					if s.err == nil {
 						s.seq = peering.LinkFrame(buf).SequenceNum()
 						s.wire = buf
-						s.key = "link:" + kit.Hash(lh.OutKey())
 					}
 				}
 				hmu.Lock()
